@@ -3,6 +3,7 @@ import PigeonVerif.Model.MidProtocol
 import PigeonVerif.Spec.SpecProtocol
 import PigeonVerif.Model.WfgProtocol
 import PigeonVerif.Opt.OptProtocol
+import PigeonVerif.Model.ClassProtocol
 open PV PV.Protocol
 
 partial def loop (spec wfg lrwf emit : Bool) (h : IO.FS.Stream) (out : IO.FS.Stream) (tab : Array CaseRange) : IO Unit := do
@@ -18,6 +19,11 @@ partial def loop (spec wfg lrwf emit : Bool) (h : IO.FS.Stream) (out : IO.FS.Str
     match parseLine MidProtocol.midCase line with
     | .ok c => out.putStrLn (MidProtocol.runMid c)
     | .error e => out.putStrLn s!"midres 0 error {e}"
+    loop spec wfg lrwf emit h out tab
+  else if line.startsWith "class " then
+    match parseLine ClassProtocol.classCase line with
+    | .ok c => out.putStrLn (ClassProtocol.runClass c)
+    | .error e => out.putStrLn s!"clsres 0 error {e}"
     loop spec wfg lrwf emit h out tab
   else if line.startsWith "optv " then
     match parseLine OptProtocol.optCase line with
